@@ -5,7 +5,7 @@ import c10
 
 CONFIGS_QUICK = ["F_all", "F_nool"]  # every configuration whose cfg-gated code the property depends on
 CONFIGS_THOROUGH = ["F_all", "F_nool"]
-TECHNIQUE = 'static analysis: exact value sets of the 14 escape predicates, replacement/entity inverse table, constant agreement (delimiter, key constants), flag provenance of SimpleTypeDeserializer constructions, QuoteTarget inheritance over every serializer construction'
+TECHNIQUE = 'static analysis: exact value sets of the 14 escape predicates, replacement/entity inverse table, constant agreement (delimiter, key constants), flag provenance of SimpleTypeDeserializer constructions, QuoteTarget inheritance over every serializer construction, bool literal table, numeric visitor table (diagonal), list filter polarity'
 EXPLANATION = (
     "Necessary conditions of the serde round trip that are visible in the code shape: exact escape sets of the 14 "
     "escape_item/escape_list predicates mapped to (target, level) by the enclosing match and compared with the reference "
